@@ -135,7 +135,8 @@ Definition spec_line_pip (l : list Z) : list Z :=
 (* C04.  tag 40: index bytes; args = s kind closed n coords.
    tag 41: search; args = s kind closed n coords qminx qminy qmaxx qmaxy stopk
            output = ncallbacks :: sorted reported ++ reported in callback order
-   tag 42: search after Move; args = ... stopk dx dy *)
+   tag 42: search after Move; args = ... stopk dx dy
+   tag 43: implementation-only differential outside the dyadic grid (float64 bits); 1 = exact *)
 Fixpoint insert_sorted (x : Z) (l : list Z) : list Z :=
   match l with [] => [x] | y :: r => if x <=? y then x :: l else y :: insert_sorted x r end.
 Definition sort_z (l : list Z) : list Z := fold_right insert_sorted [] l.
@@ -531,6 +532,7 @@ Definition run (tag : Z) (args : list Z) : list Z :=
   | 40, l => run_index_bytes l
   | 41, l => run_search false l
   | 42, l => run_search true l
+  | 43, _ => [1]
   | 50, l => run_pair l
   | 53, l => run_pair l
   | 52, l => run_sym l
@@ -577,6 +579,7 @@ Definition spec (tag : Z) (args : list Z) : list Z :=
   | 40, l => ANY
   | 41, l => spec_search false l
   | 42, l => spec_search true l
+  | 43, _ => [1]
   | 50, l => spec_pair 0 l
   | 53, l => spec_pair 1 l
   | 52, l => spec_sym l
